@@ -777,6 +777,10 @@ def c14_cases():
     C.append(SpecCase('SR', 'func SR(r rune) string { return string(r) }', [('r', 'rune32')], nopanic, None, enc_ok(lambda P: P['r'])))
     C.append(SpecCase('SI', 'func SI(i int) string { return string(rune(i)) }', [('i', 'int32')], nopanic, None, enc_ok(lambda P: P['i'])))
     C.append(SpecCase('SU16', 'func SU16(u uint16) string { return string(rune(u)) }', [('u', 'nat')], nopanic, None, enc_ok(lambda P: P['u']), pre=lambda ex, st, P: P['u'] <= 65535))
+    # 64-bit integers: the whole value decides (anything outside the Unicode range, in particular a non-zero high word, is U+FFFD)
+    v64 = lambda P: P['x'].fields['$high'] * TWO32 + P['x'].fields['$low']
+    C.append(SpecCase('SI64', 'func SI64(x int64) string { return string(x) }', [('x', 'i64')], nopanic, None, enc_ok(v64)))
+    C.append(SpecCase('SU64', 'func SU64(x uint64) string { return string(x) }', [('x', 'u64')], nopanic, None, enc_ok(v64)))
     return C
 
 def gospec_env(ex, st, binds):
